@@ -19,16 +19,16 @@ ID = "C20"
 PROPS = ["props/C20.v"]
 EXTRACTS = ["C20"]
 THEOREMS = [
-    "C20_supported_eligible_partial", "C20_compressed_abi_eligible", "C20_legacy_alias_arch_refuted",
+    "C20_supported_eligible", "C20_compressed_abi_eligible", "C20_legacy_alias_arch_eligible",
     "C20_foreign_python_rejected", "C20_foreign_python_tag_rejected", "C20_foreign_abi_rejected",
     "C20_other_abi_generation_rejected", "C20_foreign_platform_rejected", "C20_other_os_rejected",
     "C20_other_arch_rejected", "C20_newer_manylinux_rejected", "C20_foreign_rejected", "C20_legacy_newer_rejected",
     "C20_wheel_key_above_sdist", "C20_wheel_ranks_before_sdist",
-    "C20_rank_order_free_partial", "C20_rank_tie_refuted", "C20_sort_is_permutation",
-    "C20_py_score_injective_partial", "C20_py_score_minor16_refuted",
-    "C20_platform_set_order_refuted", "C20_tag_score_set_order_free_partial", "C20_usability_set_order_free",
+    "C20_rank_keys_order_free", "C20_rank_order_free", "C20_rank_tie_resolved", "C20_sort_is_permutation",
+    "C20_py_score_injective_partial", "C20_py_score_minor16_resolved", "C20_legacy_scores_as_pep600",
+    "C20_tag_score_set_order_free", "C20_usability_set_order_free",
     "C20_glibc_version_roundtrip",
-    "C20_wheel_fields_roundtrip", "C20_supported_file_eligible_partial", "C20_foreign_file_rejected",
+    "C20_wheel_fields_roundtrip", "C20_supported_file_eligible", "C20_foreign_file_rejected",
 ]
 RULE = ("interpreter configurations (CPython 2.6-3.20, both old ABI flags, glibc None/2.0-2.45/1.x/3.x, six "
         "machines; ~15% incoherent ones such as foreign PLATFORM_TAGS) are installed into "
@@ -48,7 +48,8 @@ RULE = ("interpreter configurations (CPython 2.6-3.20, both old ABI flags, glibc
         "Non-trivial = a wheel candidate (U/T), a list with two candidates of equal version (S), a manylinux or "
         "legacy tag (M), a coherent configuration (G/C); distinct = distinct (configuration, file names).")
 TRUSTED_BASE = [
-    "T1 harness/tr_c20.py: LEGACY_ALIASES, INTERPRETER_TAGS, MANYLINUX_REGEX, DistributionType values, tuple order of "
+    "T1 harness/tr_c20.py: LEGACY_ALIASES / LEGACY_MANYLINUX + the literal body of _normalize_manylinux and where it is applied, "
+    "the 'any' step of tag_score, INTERPRETER_TAGS, MANYLINUX_REGEX, DistributionType values, tuple order of "
     "Candidate.sortkey and Candidate.tag_score, sorted(... reverse=True), impl_score_defaults + shifts, order/guards of "
     "check_usability, single-string vs tag-set shape of _check_abi_compatibility and of tag_score's abi_score -> gen/ConstsC20.v "
     "(obligations in proofs/TagsC20P.v section GenOK)",
@@ -422,6 +423,13 @@ def make_candidate(rng, R, cfg, version: Optional[str] = None) -> Tuple[Any, Any
     return fn, R.filename_to_candidate(None, fn)
 
 
+def impl_alias(R, tag: str) -> str:
+    """the re-spelling check_usability's manylinux test applies before MANYLINUX_REGEX (whichever the code has)"""
+    if hasattr(R, "_normalize_manylinux"):
+        return R._normalize_manylinux(tag)
+    return R.LEGACY_ALIASES.get(tag, tag)
+
+
 def exc_name(f, *a):
     try:
         return ("OK", f(*a))
@@ -508,7 +516,7 @@ def correspondence(ctx: Ctx) -> None:
         t = gen_plat_tag(rng, cfg)
         with configured(R, cfg):
             ok = R.manylinux_tag_is_compatible_with_this_system(t)
-        m = re.match(R.MANYLINUX_REGEX, R.LEGACY_ALIASES.get(t, t))
+        m = re.match(R.MANYLINUX_REGEX, impl_alias(R, t))
         groups = "N" if m is None else "{} {} {}".format(int(m.group(1)), int(m.group(2)), hx(m.group(3)))
         add("M {} {}".format(cfg_tokens(cfg), hx(t)), "M", (json.dumps(cfg, sort_keys=True), t),
             "{} {}".format(int(ok), groups), t.startswith("manylinux"))
@@ -548,9 +556,6 @@ def correspondence(ctx: Ctx) -> None:
                 files.append("x-{}{}".format(version, rng.choice([".tar.gz", ".zip"])))
             else:
                 f = gen_wheel_name(rng, cfg, version if rng.random() < 0.8 else None, plain=True)
-                plats = f[:-4].split("-")[-1].split(".")
-                if "any" in plats and len(set(plats)) > 1:
-                    continue      # set-iteration order matters there (platform-set-order finding): covered by the T cases
                 files.append(f)
         with configured(R, cfg):
             cands = [R.filename_to_candidate(None, f) for f in files]
@@ -782,6 +787,8 @@ def witness_violates(R, w: Dict[str, Any]) -> bool:
             r = R.check_usability(None, c, allow_prereleases=True)
         return (r is not None) if w["expect"] == "eligible" else (r is None)
     if w["kind"] == "order":
+        if "distinct_scores" in w and R._py_version_score(w["distinct_scores"][0]) == R._py_version_score(w["distinct_scores"][1]):
+            return True
         with configured(R, cfg):
             a = [c.filename for c in R.sort_candidates([R.filename_to_candidate(None, f) for f in w["files"]])]
             b = [c.filename for c in R.sort_candidates([R.filename_to_candidate(None, f) for f in reversed(w["files"])])]
@@ -829,54 +836,16 @@ def _with_build(rng, fn: str) -> str:
 
 
 def _known_defect(cfg, pyf: str, abif: str, platf: str) -> bool:
-    """inputs listed as `known` in known_findings.d/C20.json: legacy alias name of a machine the alias table does
-    not list (the compressed ABI field was one until /repo c54d5f0; it is part of the guarded domain now)"""
-    for p in platf.split("."):
-        for leg in ("manylinux1_", "manylinux2010_", "manylinux2014_"):
-            if p.startswith(leg) and p[len(leg):] not in ("x86_64", "i686"):
-                return True
+    """inputs listed as `known` in known_findings.d/C20.json - none any more: the compressed ABI field (c54d5f0) and the
+    legacy alias names of machines other than x86_64/i686 (C20-1-legacy-alias-any-arch) are part of the domain now"""
     return False
 
 
 def _spec_score(cfg, pyf: str, abif: str, platf: str, fn: str):
-    """independent ranking signature of a wheel: (best python tag, platform specificity, ABI specificity, no-space)"""
-    best = 0
-    for t in pyf.split("."):
-        impl = t[:2]
-        digits = t[2:]
-        if len(t) >= 3 and digits.isdigit() and digits.isascii():
-            ma, mi = int(digits[0]), int(digits[1:] or 0)
-        else:
-            return None     # malformed python tags are outside the oracle's domain
-        if not (impl.isalpha() and impl.isascii()):
-            return None
-        rank = {"cp": 0xFFFF, "py": 0}.get(impl, (ord(impl[0]) << 8) | ord(impl[1]))
-        if mi >= 16:
-            return None
-        best = max(best, (ma << 20) | (mi << 16) | rank)
-    import re
-    plat = -1
-    plats = set(platf.split("."))
-    if "any" in plats and len(plats) > 1:
-        return None         # known: set-iteration order (platform-set-order finding)
-    aliases = {"manylinux1": (2, 5), "manylinux2010": (2, 12), "manylinux2014": (2, 17)}
-    for p in plats:
-        if p == "any":
-            plat = max(plat, 0)
-            continue
-        m = re.fullmatch(r"manylinux_(\d+)_(\d+)_(.*)", p)
-        m2 = re.fullmatch(r"(manylinux1|manylinux2010|manylinux2014)_(x86_64|i686)", p)
-        if m:
-            plat = max(plat, (int(m.group(1)) * 10 + int(m.group(2))) * 100)
-        elif m2:
-            a, b = aliases[m2.group(1)]
-            plat = max(plat, (a * 10 + b) * 100)
-        elif p.lower() in cfg["platform_tags"]:
-            plat = max(plat, (len(cfg["platform_tags"]) - cfg["platform_tags"].index(p.lower())) * 100)
-    if plat > 0:
-        plat += len(plats)
-    abi = max([cfg["abi_tags"].index(a) for a in abif.split(".") if a in cfg["abi_tags"]] or [0])
-    return (best, plat, abi, 0 if " " in fn else 1)
+    """what must tell two listed files apart for the ranking to be independent of the listing order: since the file
+    name is the last element of the sort key (C20-3-sortkey-file-name) that is the file name itself - wheels that
+    differ in their interpreter, ABI or platform tags have different names"""
+    return ("file", fn)
 
 
 def _supported_tags(R, cfg, raw) -> List[Tuple[str, str, str]]:
@@ -932,6 +901,25 @@ def oracle_case(R, case: Dict[str, Any]) -> Optional[str]:
             c = R.filename_to_candidate(None, case["file"])
             r = R.check_usability(None, c, allow_prereleases=True)
             return None if r is not None else "wheel {} is built only for a foreign target ({}) but is eligible".format(case["file"], case["why"])
+        if kind == "setorder":
+            # the platforms of a Candidate are a set: its score must not depend on the iteration order
+            scores = []
+            for order in (case["plats"], list(reversed(case["plats"]))):
+                c = R.filename_to_candidate(None, case["file"])
+                assert sorted(c.platforms) == sorted(case["plats"])
+                c.platforms = list(order)       # same elements, explicit iteration order
+                scores.append(c.tag_score)
+            return None if scores[0] == scores[1] else ("tag_score of {} depends on the iteration order of its platform set: "
+                                                        "{} for {} vs {} reversed".format(case["file"], scores[0], case["plats"], scores[1]))
+        if kind == "pyscore":
+            a, b = case["tags"]
+            return None if R._py_version_score(a) != R._py_version_score(b) else (
+                "the python tags {} and {} get the same score {}, so wheels differing only in them tie".format(a, b, R._py_version_score(a)))
+        if kind == "twin":
+            a = R.filename_to_candidate(None, case["files"][0]).tag_score
+            b = R.filename_to_candidate(None, case["files"][1]).tag_score
+            return None if a == b else ("the legacy alias wheel {} and its PEP 600 spelling {} are ranked differently: "
+                                        "tag_score {} vs {}".format(case["files"][0], case["files"][1], a, b))
         if kind == "rank":
             files = case["files"]
             outs = []
@@ -990,6 +978,26 @@ def oracle_cases(rng, R, n: int):
             raw["glibc"] = [2, raw["glibc"][1]]
         cfg = impl_cfg_of(R, raw)
         r = rng.random()
+        if r < 0.02:
+            plats = rng.sample(["any", "linux_" + cfg["arch"], "manylinux_2_17_" + cfg["arch"], "manylinux2014_" + cfg["arch"], "win_amd64"], rng.choice([2, 3]))
+            if "any" not in plats:
+                plats[0] = "any"
+            rng.shuffle(plats)
+            yield {"kind": "setorder", "cfg": cfg, "plats": plats, "file": "demo_pkg-1.0-py{}-none-{}.whl".format(cfg["major"], ".".join(plats))}
+            continue
+        if r < 0.03:
+            M = cfg["major"]
+            mk = lambda: "{}{}{}".format(rng.choice(["cp", "py"]), M, rng.choice([0, 1, 9, 10, 15, 16, 17, 20, 31, 32, 100, 255, 256, 4095, rng.randint(0, 40)]))
+            a, b = mk(), mk()
+            if a != b:
+                yield {"kind": "pyscore", "cfg": cfg, "tags": [a, b]}
+            continue
+        if r < 0.04:
+            legacy, modern = rng.choice([("manylinux2014", "2_17")] + ([("manylinux1", "2_5"), ("manylinux2010", "2_12")] if cfg["arch"] in ("x86_64", "i686") else []))
+            py = rng.choice(["py%d" % cfg["major"], "cp%d%d" % (cfg["major"], cfg["minor"])])
+            yield {"kind": "twin", "cfg": cfg, "files": ["demo_pkg-1.0-{}-none-{}_{}.whl".format(py, legacy, cfg["arch"]),
+                                                        "demo_pkg-1.0-{}-none-manylinux_{}_{}.whl".format(py, modern, cfg["arch"])]}
+            continue
         if r < 0.12:
             c = platform_rank_case(rng, cfg, packaging_tags(raw), legacy_only=rng.random() < 0.5)
             if c is not None:
@@ -1204,14 +1212,16 @@ def replay(ctx: Ctx, payload: Dict[str, Any]) -> bool:
 
 
 LEVEL_TEXT = ("Theorems proved in Coq over a Gallina model of repository.py's tag predicates, manylinux policy, tag_score, "
-              "sort key, sort_candidates and check_usability: every tag of the PEP 425/600 supported-tag list of every CPython "
-              "2.x/3.x minor, glibc 2.x version and machine is eligible whenever the wheel's compressed tag sets contain it "
-              "(guard: legacy alias names only for x86_64/i686 - refuted with a witness replayed on the code; the former "
-              "compressed-ABI exclusion was repaired in /repo c54d5f0 and is now a positive theorem); wheels built only for another major, implementation, ABI generation, operating system, machine or a "
-              "newer manylinux are rejected for every configuration; a wheel's key is above the same version's sdist and it is "
-              "sorted before it; the stable descending sort is a permutation and independent of listing order when keys are "
-              "distinct (tie witness py3 vs py2.py3 refuted).  The model is tied to /repo by generated constants (T1) and "
-              "differential execution under patched interpreter configurations (T2); sys_tags is validated against packaging.")
+              "sort key, sort_candidates, check_usability and wheel-file-name reading: every tag of the PEP 425/600 supported-tag "
+              "list of every CPython 2.x/3.x minor, glibc 2.x version and machine is eligible whenever the wheel's compressed tag "
+              "sets contain it (full statement; the former exclusions - compressed ABI field, legacy alias names off x86 - were "
+              "repaired in /repo and are positive theorems now); wheels built only for another major, implementation, ABI "
+              "generation, operating system, machine or a newer manylinux are rejected for every configuration; a wheel's key is "
+              "above the same version's sdist and it is sorted before it; for every listing order the ranking shows the same "
+              "sequence of keys and file names, and the same candidates when file names differ (full statement; the former "
+              "tie / set-order / minor-16 witnesses are positive examples now).  The model is tied to /repo by generated "
+              "constants (T1) and differential execution under patched interpreter configurations (T2); sys_tags is validated "
+              "against packaging.")
 LEVEL_NOTE = ("Trusted: Coq kernel, extraction, OCaml driver, T1 translator, T2 harness; packaging's tag generators are the "
               "reference for the specification; CPython int()/re/sorted are modelled and sampled; ASCII tags only; no "
               "_manylinux override; non-debug non-free-threaded CPython on glibc Linux.")
